@@ -171,6 +171,9 @@ pub fn rule_pool() -> Vec<RuleSpec> {
         // the right side names a slot that the left side does not have: the class is united with a renamed copy of
         // itself and loses the slot IN PLACE (no new class, no merge, no new node)
         r("mul-zero-rename", "(mul (var $y) 0)", "(mul (var $z) 0)"),
+        // a substitution inside a substitution: chained brackets, and a bracket in the argument of a bracket
+        r("let-let-chain", "(let $x (let $y ?b ?s) ?t)", "?b[(var $y) := ?s][(var $x) := ?t]"),
+        r("let-let-arg", "(let $x ?b (let $z ?s ?t))", "?b[(var $x) := ?s[(var $z) := ?t]]"),
         RuleSpec { name: "let-unused-both", lhs: "(let $x (add ?a ?c) ?e)", rhs: "(add ?a ?c)", not_free: Some(("x", "a")), not_free2: Some(("x", "c")) },
     ]
 }
@@ -721,6 +724,12 @@ pub fn special_terms() -> Vec<T> {
         // while its children are leaves, so the extractor meets it before the class has a best node
         tlet(100, node2("add", tvar(100), node2("sub", tvar(0), tvar(1))), node2("sub", tvar(2), tvar(2))),
         tlet(100, node2("add", tvar(100), tvar(0)), node2("sub", tvar(1), tvar(1))),
+        // let x = z in x + (y * 0): `mul-zero-rename` makes the class of y * 0 lose its slot in place (it stays leader), a
+        // commutativity rule then inserts a new parent of it, and let-subst walks through that parent's syntactic term
+        tlet(100, node2("add", tvar(100), node2("mul", tvar(0), tnum("0"))), tvar(1)),
+        tlet(100, node2("mul", node2("mul", tvar(0), tnum("0")), tvar(100)), tvar(1)),
+        // let x = (let z = y in z + 1) in x * x: a let in the argument of a let (nested substitution brackets)
+        tlet(100, node2("mul", tvar(100), tvar(100)), tlet(101, node2("add", tvar(101), tnum("1")), tvar(0))),
     ]
 }
 
